@@ -18,13 +18,17 @@ from harness.core import MachineryError, PY, VERIF, REPO
 from harness.tlc import run_tlc, cases, validate_traces
 
 META = dict(
-    spec='NoExec.tla, Trace_NoExec.tla',
+    spec='NoExec.tla, ProjConfig.tla, Trace_NoExec.tla',
     text='TLC checks the whole load-decision table (6 module kinds x 3 locations x 3 name classes x 3 sys.path '
          'options x smart_sys_path x load_unsafe_extensions = 648 rows, 3288 states): project code is never imported '
          'unless the project opted in, Python sources are only parsed, the host sys.path is restored also when the '
          'import raises, every request terminates; the what-if without the safe-path filter must fail. Every row is materialised on disk with import-time side effects in every '
          'project file and all query, search and refactoring methods are run; sentinels (host and helper), H3 hook '
-         'events, sys.path/sys.modules/cwd/environ before and after are compared with the model and judged by TLC.',
+         'events, sys.path/sys.modules/cwd/environ before and after are compared with the model and judged by TLC. '
+         'ProjConfig.tla: the session start (what the caller passes x what a .jedi/project.json of the analysed tree '
+         'says, 56 rows) is model-checked for the design as coded (violates NoTreeCodeRuns: known findings) and for the '
+         'repaired design (holds); every row runs in a fresh process against a tree that ships an interpreter script '
+         'and an extension module.',
     note='Side effects are observed through a sentinel file and the JEDI_VERIF hook in compiled.access; an extension '
          'module is compiled with gcc at check time (skipped and said so when no compiler is present); jedi\'s own lazy '
          'imports are excluded by a warm-up query.',
@@ -83,6 +87,82 @@ def event(r):
             'projmods': len(r['host']['project_modules_imported']),
             'execprojpath': any(e['has_project'] for e in r['execs'])
             and not c['unsafe']}
+
+
+# ---------------------------------------------------------------- ProjConfig.tla: session start
+PCFG = """SPECIFICATION Spec
+CONSTANTS
+  ConfigEnvSafe = %s
+  ConfigUnsafeHonoured = %s
+%s
+CHECK_DEADLOCK FALSE
+"""
+
+
+def session_start_leg(ctx):
+    """What of the analysed tree runs because of what the tree CONTAINS (.jedi/project.json) when the caller passes
+    no project / environment.  The table of ProjConfig.tla is emitted with the Design's prediction, every row is
+    materialised and run in a fresh process; the sentinel says what ran."""
+    def pcfg(name, safe, honoured, body):
+        p = os.path.join(ctx.tmp, name)
+        with open(p, 'w') as f:
+            f.write(PCFG % (safe, honoured, body))
+        return p
+    res = run_tlc('ProjConfig', pcfg('pc_coded.cfg', 'FALSE', 'TRUE', 'INVARIANT NoTreeCodeRuns'), workers=2, timeout=600)
+    ctx.add_tlc(res, 'session start, design as coded: NoTreeCodeRuns')
+    coded_violates = res.violated == 'NoTreeCodeRuns'
+    res = run_tlc('ProjConfig', pcfg('pc_rep.cfg', 'TRUE', 'FALSE', 'INVARIANT NoTreeCodeRuns'), workers=2, timeout=600)
+    ctx.add_tlc(res, 'session start, repaired design (config interpreter checked, config unsafe flag ignored): NoTreeCodeRuns')
+    if res.violated:
+        raise MachineryError('ProjConfig.tla: the repaired design violates NoTreeCodeRuns')
+    res = run_tlc('ProjConfig', pcfg('pc_emit.cfg', 'FALSE', 'TRUE', 'CONSTRAINT Emit'), workers=1, timeout=600)
+    ctx.add_tlc(res, 'session-start table emission')
+    rows = cases(res)
+    if len(rows) < 40:
+        raise MachineryError('session-start table too small: %d' % len(rows))
+    d = ctx.sub('c12cfg')
+    env = dict(os.environ, VERIF_REPO=REPO, PYTHONPATH=os.pathsep.join([REPO, VERIF]), C12_TMP=d)
+    env.pop('VIRTUAL_ENV', None)
+    env.pop('CONDA_PREFIX', None)
+    results = [None] * len(rows)
+    pending = list(enumerate(rows))
+    running = []
+    while pending or running:
+        while pending and len(running) < 12:
+            i, row = pending.pop(0)
+            jp, op = os.path.join(d, 'j%d.json' % i), os.path.join(d, 'o%d.json' % i)
+            with open(jp, 'w') as f:
+                json.dump(row, f)
+            running.append((i, subprocess.Popen([PY, os.path.join(VERIF, 'harness', 'c12cfg_worker.py'), jp, op], env=env, cwd=d,
+                                                stdout=subprocess.PIPE, stderr=subprocess.STDOUT), op))
+        i, p, op = running.pop(0)
+        so, _ = p.communicate(timeout=900)
+        if p.returncode != 0 or not os.path.exists(op):
+            raise MachineryError('c12cfg worker failed: %s' % so.decode()[-1500:])
+        results[i] = json.load(open(op))
+    ctx.coverage['session_start_rows'] = len(rows)
+    nran = 0
+    for row, r in zip(rows, results):
+        if not r['ext_built']:
+            continue
+        ran = set(x for x in r['ran'] if x in ('interpreter', 'setup.py') or x.startswith('ext:'))
+        ran = set('extension' if x.startswith('ext:') else x for x in ran)
+        predicted = set(row['ran'])
+        shape = 'projarg=%s,envarg=%s,cfgenv=%s,cfgunsafe=%s,ext=%s' % (row['projarg'], row['envarg'], row['cfgenv'],
+                                                                      row['cfgunsafe'], row['ext'])
+        if ran != predicted:
+            ctx.drift({'session_start_row': shape, 'model': sorted(predicted), 'code': sorted(ran), 'outcomes': r['outcomes']})
+        if ran:
+            nran += 1
+            for what in sorted(ran):
+                key = {'interpreter': 'config:interpreter-named-by-discovered-project-json',
+                       'extension': 'config:unsafe-extensions-enabled-by-discovered-project-json'}.get(what, 'config:' + what)
+                ctx.violation(key, 'code of the analysed tree ran (%s) although the caller passed neither an interpreter of the '
+                              'tree nor load_unsafe_extensions' % what, {'row': row, 'observed': r})
+    ctx.coverage['session_start_rows_where_tree_code_ran'] = nran
+    ctx.coverage['session_start_design_as_coded_violates'] = coded_violates
+    if nran and not coded_violates:
+        raise MachineryError('tree code ran but the Design as coded does not predict it')
 
 
 def run(ctx):
@@ -154,4 +234,5 @@ def run(ctx):
     if bv[0]['accepted']:
         raise MachineryError('binding self-test: executed project module accepted')
     ctx.coverage['binding_selftest'] = 'executed project module rejected: %s' % bv[0]['why']
+    session_start_leg(ctx)
     return None
